@@ -143,3 +143,21 @@ reg("C10", lambda tier: cmd_units("C10/"),
 reg("C16", lambda tier: cmd_units("C16/"),
     "bounded symbolic model checking of the --json discipline: every stdout/stderr write of the real RunX functions is an output event; on success with --json exactly one JSON value and no text reaches stdout, on failure at most one JSON value and (with --json) no text.",
     ["output calls (fmt.Print*, writeJSON) are modelled as events; the cmd layer (exitErr -> stderr, exit code) is outside the claim", "truth of the reported fields: see DESIGN (new-task reply vs post-state)"])
+
+
+# ---------------------------------------------------------------- C05
+def c05_units(tier):
+    hs = ["c06.go", "c07.go", "c14.go", "c05.go"]
+    us = [
+        Unit("compact-roundtrip", hs, "zzC05_Compact_N2", {"loop": 40, "rec": 4}, bounds="store of 2 items (any kinds), 1 result per task, 1 pruned id, any well-formed edges, Meta obeying I6/I7 (timestamps consistent with a monotonic clock)"),
+        Unit("claim-order", hs, "zzC05_ClaimOrder", {"loop": 40, "rec": 4}, bounds="store of 2 items; readyTasks before/after for an arbitrary epic filter"),
+    ]
+    if tier == "thorough":
+        us.append(Unit("compact-roundtrip-n3", hs, "zzC05_Compact_N3", {"loop": 96, "rec": 4, "_wall": 7000}, bounds="store of 3 items, 2 results per task"))
+    return us
+
+
+reg("C05", c05_units,
+    "bounded symbolic model checking: the real compactEvents is run on an arbitrary store satisfying the invariants replay establishes (I1-I7), its output is replayed by the real replayEvents from an empty graph, and every observable of every item (state, claimant, claim time, title, body, epic, kind, uuid, created/updated, results with evidence in order, ready/blocked, edges, claim order) is compared.",
+    ["time.Format/Parse(RFC3339Nano) modelled as an injective UF pair with parse(format(t)) = t", "pre-state invariants I6/I7 (Meta consistent with a CLI-written log under a monotonic clock) are assumed; legacy-format and torn-tail logs are outside this unit",
+     "json boxes keyed by the struct tags of the current source"])
